@@ -416,8 +416,11 @@ macro_rules! submit_threaded_operation {
             return result_recv;
         }
 
+        // if the handler is dropped uninvoked (operation still queued when the event loop ends), the
+        // guard resolves the result with an error rather than leaving the caller waiting forever
+        let completion_guard = SyncCompletionGuard::new(Box::new(move |res| { result_send.apply_if_unset(res); }));
         let response_handler = Box::new(move |res| {
-            result_send.apply(res);
+            completion_guard.complete(res);
             Ok(())
         });
 
@@ -428,7 +431,7 @@ macro_rules! submit_threaded_operation {
 
         let submit_result = $self.operation_sender.send(OperationOptions::$operation_type(boxed_packet, internal_options));
         if let Err(submit_error) = submit_result {
-            late_sender.apply(Err(GneissError::new_operation_channel_failure(submit_error)));
+            late_sender.apply_if_unset(Err(GneissError::new_operation_channel_failure(submit_error)));
         }
 
         result_recv
@@ -440,8 +443,16 @@ macro_rules! submit_threaded_operation_with_callback {
         let boxed_packet = Box::new(MqttPacket::$packet_type($packet_value));
         validate_packet_outbound(&boxed_packet)?;
 
+        // a submission that fails synchronously reports its error through the return value only
+        let armed = Arc::new(std::sync::atomic::AtomicBool::new(true));
+        let callback_armed = armed.clone();
+        let completion_guard = SyncCompletionGuard::new(Box::new(move |res| {
+            if callback_armed.load(std::sync::atomic::Ordering::SeqCst) {
+                $completion_callback(res);
+            }
+        }));
         let response_handler = Box::new(move |res| {
-            $completion_callback(res);
+            completion_guard.complete(res);
             Ok(())
         });
 
@@ -452,6 +463,7 @@ macro_rules! submit_threaded_operation_with_callback {
 
         let submit_result = $self.operation_sender.send(OperationOptions::$operation_type(boxed_packet, internal_options));
         if let Err(submit_error) = submit_result {
+            armed.store(false, std::sync::atomic::Ordering::SeqCst);
             return Err(GneissError::new_operation_channel_failure(submit_error));
         }
 
